@@ -216,10 +216,21 @@ class SimProcess:
         time.time = fake_time
         time.time_ns = lambda: int(fake_time() * 1e9)
         os.getpid = lambda: pid
+        self._saved_env = None
+        env = self.knobs.get("environ")
+        if env:
+            self._saved_env = {k: os.environ.get(k) for k in env}
+            os.environ.update(env)
         return self
 
     def __exit__(self, *a):
         random._urandom, os.urandom, time.time, time.time_ns, os.getpid = self._saved_fns
+        if self._saved_env:
+            for k, v in self._saved_env.items():
+                if v is None:
+                    os.environ.pop(k, None)
+                else:
+                    os.environ[k] = v
         self._rand_state = random.getstate()
         random.setstate(self._saved_rand)
         root = logging.getLogger()
